@@ -1,6 +1,7 @@
 import Driver.Util
 import Driver.SemDrv
 import Driver.StopDrv
+import Driver.StopRefDrv
 /-! `driver <model>`: reads harness output (cases) on stdin, prints one verdict line per case. -/
 open Driver
 
@@ -8,6 +9,7 @@ def dispatch (model : String) (c : Case) : String :=
   match model with
   | "sem" => SemDrv.runCase c
   | "stop" => StopDrv.runCase c
+  | "stopref" => StopRefDrv.runCase c
   | _ => s!"case {c.id} reject 0 unknown-model-{model}"
 
 def main (args : List String) : IO UInt32 := do
